@@ -123,6 +123,14 @@ func init() {
 			return mkString(cells)
 		},
 		"vFileWrites": func(fr *frame, args []value) value { return len(fr.i.fileData[args[0].(int)]) },
+		"vMonitorWrites": func(fr *frame, args []value) value {
+			if args[0].(bool) {
+				fr.i.mon = newWriteMon()
+			} else {
+				fr.i.mon = nil
+			}
+			return nil
+		},
 		"vKnown": func(fr *frame, args []value) value {
 			fr.i.ps().known = args[0].(string)
 			return nil
